@@ -643,8 +643,9 @@ func init() {
 		Rules: []Rule{
 			{ID: "C05-conflate", Floor: 4, Run: c05Conflate, Text: "[DOM] nil result of the fetch only on cancellation edges"},
 			{ID: "C05-group", Floor: 5, Run: c05Group, Text: "[DOM]+[PROV] EVMBlock creation dominated by header.Hash == log.BlockHash; Removed/topic filters"},
-			{ID: "C05-retry", Floor: 4, Run: c05Retry, Text: "[DOM]+flag threading: handleNewBlock returns only after success / cancel / ErrInconsistentState"},
+			{ID: "C05-retry", Floor: 2, Run: c05Retry, Text: "[DOM]+flag threading: handleNewBlock returns only after success / cancel / ErrInconsistentState"},
 			{ID: "C05-lastblock", Floor: 3, Run: c05LastBlock, Text: "SQL: the resume point of each store is the greatest recorded block number"},
+			{ID: "C05-watch", Floor: 6, Run: func(c *core.Ctx) { watchListRule(c, "C05-watch", nil) }, Text: "[PROV] each downloader is built with the literal list of its contract address(es); the log filter carries it"},
 			{ID: "C05-bootstrap", Floor: 2, Run: c05Bootstrap, Text: "[PROV]+[DOM] a fresh store is primed with the block before the configured first block"},
 			{ID: "C05-restart", Floor: 3, Run: c05Restart, Text: "[PROV]+[DOM] Download(from = lastProcessed+1); reset after reorg"},
 			{ID: "C05-cursor", Floor: 1, Run: c05Cursor, Text: "[CURSOR] lower bound of each fetch is the loop-carried cursor"},
@@ -652,4 +653,72 @@ func init() {
 			{ID: "C05-marker", Floor: 1, Run: c05Marker, Text: "[DOM]+[PROV] empty marker after a delivery only when the delivery's last block is below the marker block"},
 		},
 	})
+}
+
+// watchListRule: a downloader is built with the literal list of the contract address(es) it is meant to watch — a nil or
+// wider list delivers same-signature events of foreign contracts — and the log query carries that list.
+func watchListRule(c *core.Ctx, rule string, only map[string]bool) {
+	sx := core.NewSymx()
+	want := map[string][]string{
+		"bridgesync.newBridgeSync":     {"bridge"},
+		"l1infotreesync.New":           {"globalExitRoot", "rollupManager"},
+		"lastgersync.newDownloaderPP":  {"l2GERAddr"},
+	}
+	n := 0
+	for _, cs := range c.AllCallsTo("sync.NewEVMDownloader", "sync.NewEVMDownloaderImplementation") {
+		name := core.ShortFn(cs.Fn)
+		if strings.HasPrefix(name, "sync.") {
+			continue // NewEVMDownloader forwarding to the implementation
+		}
+		if only != nil && !only[name] {
+			continue
+		}
+		n++
+		args := core.AsCall(cs.Instr).Args
+		idx := 6
+		if core.CallName(cs.Instr) == "sync.NewEVMDownloaderImplementation" {
+			idx = 5
+		}
+		t := sx.Of(args[idx])
+		var got []string
+		t.Walk(func(x *core.Term) {
+			if x.Op == "lit" && len(got) == 0 {
+				for k := 0; k < len(x.Fields); k++ {
+					if f := x.Fields[fmt.Sprintf("[const(%d)]", k)]; f != nil {
+						got = append(got, f.String())
+					}
+				}
+			}
+		})
+		if name == "lastgersync.newDownloaderFEP" {
+			// this downloader reads the contract's map, not logs: no appender and no address list
+			c.Decide(isNilConst(args[idx]) && isNilConst(args[idx-1]), rule, "watch-list@"+name, cs.Instr.Pos(), "the FEP downloader does not consume logs (nil appender, nil address list)")
+			continue
+		}
+		w, known := want[name]
+		c.Decide(known && fmt.Sprint(got) == fmt.Sprint(w), rule, "watch-list@"+name, cs.Instr.Pos(), fmt.Sprintf("the downloader watches exactly %v (got %v)", w, got))
+	}
+	if n == 0 {
+		c.Undecide(rule, "watch-list", 0, "no downloader construction site found")
+	}
+	// the forwarding constructor and the log query use the list they were given
+	if fn := c.MustFn(rule, "sync", "", "NewEVMDownloader"); fn != nil && only == nil {
+		ok := false
+		core.Instrs(fn, func(i ssa.Instruction) {
+			if core.IsCallTo(i, "sync.NewEVMDownloaderImplementation") {
+				ok = sx.Of(core.AsCall(i).Args[5]).String() == "addressesToQuery"
+			}
+		})
+		c.Decide(ok, rule, "sync.NewEVMDownloader#forwards-list", fn.Pos(), "the address list is handed to the implementation unchanged")
+	}
+	if fn := c.MustFn(rule, "sync", "EVMDownloaderImplementation", "GetLogs"); fn != nil && only == nil {
+		ok := false
+		core.Instrs(fn, func(i ssa.Instruction) {
+			if cc := core.AsCall(i); cc != nil && cc.IsInvoke() && cc.Method.Name() == "FilterLogs" {
+				q := sx.Of(cc.Args[1])
+				ok = q.Op == "lit" && q.Fields["Addresses"] != nil && q.Fields["Addresses"].String() == "d.addressesToQuery"
+			}
+		})
+		c.Decide(ok, rule, "sync.(*EVMDownloaderImplementation).GetLogs#query-addresses", fn.Pos(), "the log filter is restricted to the configured addresses")
+	}
 }
